@@ -491,7 +491,8 @@ def gen_text_precision_case(rng):
     return {"kind": "text_precision", "n": n, "stamped": rng.random() < 0.5,
             # seven significant digits (text file) or single precision (poses
             # computed elsewhere in float32)
-            "dtype": rng.choice(["text", "text", "float32"]),
+            "dtype": rng.choice(["text", "text", "float32", "int_xyzquat",
+                                 "float32_xyzquat"]),
             "data_seed": rng.getrandbits(30),
             "profile": {"scale": rng.choice([1.0, 10.0, 100.0]),
                         "rot": rng.choice(["uniform", "small", "planar"]),
@@ -514,10 +515,23 @@ def run_text_precision(evo, case, check):
             poses.append(np.array([[float("%e" % x) for x in row]
                                    for row in T]))
     T_ = evo.trajectory
+    kw = {"poses_se3": poses}
+    if case.get("dtype") == "int_xyzquat":
+        # integer way points with identity orientations written as integers
+        kw = {"positions_xyz": np.round(pos).astype(np.int64),
+              "orientations_quat_wxyz": np.tile(
+                  np.array([1, 0, 0, 0], dtype=np.int64), (case["n"], 1))}
+    elif case.get("dtype") == "float32_xyzquat":
+        kw = {"positions_xyz": pos.astype(np.float32),
+              "orientations_quat_wxyz": quat.astype(np.float32)}
+    if "poses_se3" not in kw:
+        # (the matrices are only used for the is_se3() screening below)
+        tmp = T_.PosePath3D(**{k: v.copy() for k, v in kw.items()})
+        poses = [np.array(p) for p in tmp.poses_se3]
     if case["stamped"]:
-        obj = T_.PoseTrajectory3D(poses_se3=poses, timestamps=ts)
+        obj = T_.PoseTrajectory3D(timestamps=ts, **kw)
     else:
-        obj = T_.PosePath3D(poses_se3=poses)
+        obj = T_.PosePath3D(**kw)
     trail = []
 
     def state(tag):
